@@ -162,7 +162,7 @@ pub fn run(prop: &str) {
     };
     for k in need {
         if counters.get(k).copied().unwrap_or(0) == 0 {
-            mc::machinery(&format!("{prop} vacuous: {k} = 0"));
+            rep.vacuous(&format!("{prop} vacuous: {k} = 0"));
         }
     }
     rep.finish();
